@@ -431,7 +431,11 @@ int main(void) {
 				free(sv); vctx = c2;
 			}
 			if (prc == KSI_OK) { r1 = KSI_verifyDataHash(vctx, sig, doc); r2 = KSI_verifySignature(vctx, sig); }
-			printf("R vdh parse=0x%x datahash=0x%x signature=0x%x\n", prc, (unsigned)r1, (unsigned)r2);
+			printf("R vdh parse=0x%x datahash=0x%x signature=0x%x", prc, (unsigned)r1, (unsigned)r2);
+			if (prc == KSI_OK && n > 8) {      /* ... <documentHex|E>: KSI_Signature_verifyDocument on the document itself (E = the empty document) */
+				size_t l = 0; unsigned char *d = strcmp(tok[8], "E") ? hx_dec(tok[8], &l) : H_MALLOC(1);
+				printf(" document=0x%x", (unsigned)KSI_Signature_verifyDocument(sig, vctx, d, l)); free(d); }
+			printf("\n");
 			KSI_DataHash_free(doc); KSI_Signature_free(sig); KSI_CTX_free(c2); free(sb); free(db);
 		} else if (!strcmp(tok[0], "VERIFY")) {
 			/* VERIFY <policy> <sigHex> <userPubTime:imprintHex|-> <pubfileHex|-> <extendingAllowed 0|1> [<docHex|-> [<level|->]]   (blocking context from BNEW; the extender is endpoint 1) */
